@@ -151,7 +151,7 @@ def check_limiter(chk: Check, repo: Repo) -> None:
                         return [("next", e1)]
                     return base(node, env)
 
-                env = {"self.xknx.rate_limit": rate, "self._rate_limiter": prev, "ex.should_log": True}
+                env = {"self.xknx.rate_limit": rate, "self._rate_limiter": prev, **{f"{h.name}.should_log": True for h in ast.walk(fi.node) if isinstance(h, ast.ExceptHandler) and h.name}}
                 paths = Explorer(cfg, repo, step).run(head, [head], env)
                 for p in paths:
                     tr = tuple(t for t in p.env.get("trace", ()) if not t.startswith("raise:"))
